@@ -4,7 +4,7 @@ random trivia at every soft boundary, optional ';' after END_IF."""
 
 TRIVIA = [" ", "  ", "\t", "\n", "\r\n", " \n ", "\n\n", " (* c *) ", "(* c *)", " (* multi\nline *) ",
           "(* ( *)", " (* ) *) ", "(* * *)", " (* a (* b *) ", "(*x*)(*y*)", " (* café ü *) ", "\n\t(* - *)\n",
-          " (**) ", "\t \t"]
+          " (**) ", "\t \t", "(***)", " (* x **) ", "(* a * b *)", " (*) x *) "]
 TRIVIA_FF = ["\f", " \f "]
 
 
